@@ -54,6 +54,10 @@ class PropertyRelation(OntologyElement):
     def __str__(self):
         return f"{self.__attr['source']}=>{self.__attr['target']}"
 
+    def _set_event_type(self, event_type):
+        self.__event_type = event_type
+        return self
+
     def _child_modified_callback(self):
         """Callback for change tracking"""
         self.__event_type._child_modified_callback()
@@ -547,7 +551,6 @@ class PropertyRelation(OntologyElement):
                 self.set_description(property_relation.get_description())
                 self.set_predicate(property_relation.get_predicate())
                 self.set_confidence(property_relation.get_confidence())
-            self.__event_type = property_relation.__event_type
 
         return self
 
